@@ -47,7 +47,7 @@ type CProg struct {
 
 var cascadeGates = map[string]bool{
 	"pool.worker.head": true, "pool.getTask.kill": true, "pool.getTask.pop": true, "pool.idle.reg": true,
-	"pool.idle.afterWake": true,
+	"pool.idle.afterWake":   true,
 	"pool.setWorkers.grown": true, "pool.setWorkers.idleWait": true,
 	"task.run.start": true, "task.run.failed": true, "task.run.end": true,
 	"task.handleError.set": true, "task.handleError.finished": true, "task.handleError.notified": true,
